@@ -145,6 +145,53 @@ class Native(object):
         return True
 
 
+class Deque(Native):
+    """collections.deque over concrete items."""
+
+    def __init__(self, items=()):
+        self.items = list(items)
+
+    def __repr__(self):
+        return 'deque(%r)' % (self.items,)
+
+    def truth(self):
+        return len(self.items) > 0
+
+    def call_method(self, name, args, kwargs, interp, frame, node):
+        it = self.items
+        if name == 'append':
+            it.append(args[0])
+        elif name == 'appendleft':
+            it.insert(0, args[0])
+        elif name in ('extend', 'extendleft'):
+            src = args[0].items if isinstance(args[0], Deque) else args[0]
+            if not isinstance(src, (list, tuple)):
+                raise Unsupported('deque.%s with a non-concrete iterable' % name)
+            if name == 'extend':
+                it.extend(src)
+            else:
+                for x in src:           # one at a time on the left: the argument ends up reversed
+                    it.insert(0, x)
+        elif name in ('pop', 'popleft'):
+            if not it:
+                raise Raise('IndexError', node, interp.where(node, frame))
+            return it.pop() if name == 'pop' else it.pop(0)
+        elif name == 'clear':
+            del it[:]
+        elif name == 'rotate':
+            n = args[0] if args else 1
+            if it and isinstance(n, int):
+                n %= len(it)
+                it[:] = it[-n:] + it[:-n]
+        elif name == 'copy':
+            return Deque(it)
+        elif name == 'reverse':
+            it.reverse()
+        else:
+            return Top('call:deque.' + name)
+        return None
+
+
 class FuncRef(object):
     def __init__(self, fi, bound=None, pre_args=()):
         self.fi, self.bound, self.pre_args = fi, bound, tuple(pre_args)
@@ -721,6 +768,14 @@ class Interp(object):
                     v = True
                 elif l is None or r is None:
                     v = False
+                elif isinstance(l, Obj) and isinstance(r, Obj) and l.cls == r.cls == 'slice':
+                    parts = [(l.fields.get(k), r.fields.get(k)) for k in ('start', 'stop', 'step')]
+                    if any(_has_abstract(a) or _has_abstract(b) for a, b in parts):
+                        return None
+                    v = all(a == b for a, b in parts)
+                elif (isinstance(l, Obj) and l.cls == 'slice' and isinstance(r, (int, str, bytes, float, tuple))) or \
+                        (isinstance(r, Obj) and r.cls == 'slice' and isinstance(l, (int, str, bytes, float, tuple))):
+                    v = False
                 else:
                     return None
             elif _has_abstract(l) or _has_abstract(r):
@@ -970,6 +1025,13 @@ class Interp(object):
             return dict(a) if isinstance(a, dict) else (list(a) if isinstance(a, list) else a)
         if qual == 'functools.partial':
             return self.make_partial(args, kwargs)
+        if qual == 'collections.deque':
+            a = args[0] if args else []
+            if isinstance(a, Deque):
+                a = a.items
+            if isinstance(a, (list, tuple)):
+                return Deque(a)
+            return Top('deque')
         if qual.startswith('six.moves.') and qual[10:] in ('range', 'zip', 'map', 'filter'):
             return self.builtin(qual[10:], args, kwargs, node, frame)
         return Top('call:' + qual)
@@ -1140,6 +1202,8 @@ class Interp(object):
         if name == 'len':
             if isinstance(a0, (list, tuple, str, bytes, dict)):
                 return len(a0)
+            if isinstance(a0, Deque):
+                return len(a0.items)
             if isinstance(a0, Tok):
                 return 0 if a0.c == 'E' else Top('posint')
             return Top('int')
@@ -1249,6 +1313,8 @@ class Interp(object):
                 raise Raise('TypeError', node, self.where(node, frame))
             return Obj('slice', {'start': st, 'stop': sp, 'step': se, 'args': a})
         if name in ('list', 'tuple'):
+            if isinstance(a0, Deque):
+                a0 = list(a0.items)
             if isinstance(a0, (list, tuple)):
                 return list(a0) if name == 'list' else tuple(a0)
             if not args:
@@ -1559,6 +1625,8 @@ class Interp(object):
     def st_For(self, s, frame):
         it = self.ev(s.iter, frame)
         vals = self.on_for(s, it, frame)
+        if vals is None and isinstance(it, Deque):
+            it = list(it.items)
         if vals is None and isinstance(it, (list, tuple)) and len(it) <= self.UNROLL_CAP:
             vals = list(it)
         if vals is not None:
